@@ -202,6 +202,11 @@ func (d *Duplex) Close() error {
 	d.out.close()
 	return nil
 }
+
+// CloseWrite ends this end's outgoing direction: the peer reads what is pending and then io.EOF
+// (a garbled stream then ends in an error instead of a reader blocked for ever).
+func (d *Duplex) CloseWrite() { d.out.close() }
+
 func (d *Duplex) LocalAddr() net.Addr                { return addr("duplex-local") }
 func (d *Duplex) RemoteAddr() net.Addr               { return addr("duplex-remote") }
 func (d *Duplex) SetDeadline(t time.Time) error      { return nil }
